@@ -12,12 +12,14 @@
       fresh properties bound with immediate evaluation to operator expressions (arity 1-3) over existing properties (bound ones
       included, the same input any number of times), assignments to inputs - in every world such a history reaches, every bound
       property equals its expression recomputed from scratch (C02_growing_network_consistent).
-   PARTIAL: observers that write, rebinding / reset / moves / destruction between assignments are covered by
+   4. the same for histories that also bind EXISTING unbound properties (which may already have readers) and call reset()
+      (coq/PropGrowMore.v: C02_network_with_late_bindings_and_resets_consistent).
+   PARTIAL: observers that write, direct rebinding of a bound property, moves and destruction between assignments are covered by
    PropCheck.check_c02 on every world reached by the generated histories and by correspondence, not by the refinement. *)
 From Coq Require Import List ZArith.
 Import ListNotations.
 From KDB Require Import PropAbs PropAbsProofs.
-From KDB Require Util PropDefs PropLink PropCheck PropSim PropGrow.
+From KDB Require Util PropDefs PropLink PropCheck PropSim PropGrow PropGrowMore.
 
 (* Inv s [] says: every node of every binding is clean, every cached result is the denotation of its subtree, every
    bound property equals the denotation of its expression, every leaf is subscribed to its input. *)
@@ -89,6 +91,16 @@ Theorem C02_growing_network_consistent :
     PropCheck.den_node fn (PropDefs.values (PropDefs.run fn rtl fuel ops)) (PropDefs.b_root x) = Some z -> PropDefs.pr_value pr = z.
 Proof. exact PropGrow.grow_reachable_consistent. Qed.
 Print Assumptions C02_growing_network_consistent.
+
+(* ... and for histories in which existing unbound properties (possibly with readers already) are bound later and bound properties are
+   reset: grow_op2 = new property, assignment, read, plain observer, immediate binding of a fresh or unbound property, reset *)
+Theorem C02_network_with_late_bindings_and_resets_consistent :
+  forall fn rtl fuel ops q x pr z,
+    PropGrowMore.grow2_run_ok fn rtl fuel PropDefs.world0 ops ->
+    PropSim.imm_of (PropDefs.run fn rtl fuel ops) q = Some x -> Util.lookup (PropDefs.w_props (PropDefs.run fn rtl fuel ops)) q = Some pr ->
+    PropCheck.den_node fn (PropDefs.values (PropDefs.run fn rtl fuel ops)) (PropDefs.b_root x) = Some z -> PropDefs.pr_value pr = z.
+Proof. exact PropGrowMore.grow2_reachable_consistent. Qed.
+Print Assumptions C02_network_with_late_bindings_and_resets_consistent.
 
 (* non-vacuity: a chain with a diamond (input 0 reaches property 3 directly and through property 2) and an observer: the history is
    a growing-network history, and after the assignment property 3 holds (5 + 2) + 5 *)
